@@ -12,6 +12,7 @@ from fractions import Fraction as Fr
 from .. import muts as MU
 from .. import universe as U
 from ..acc import Acc
+from .. import argforms as AF
 from ..ref import stats as RS
 from ..ref.trees import NULL, RefTS
 
@@ -226,9 +227,13 @@ def check_general(ts, rts, modes, acc, case, wlimit=None, with_sites_windows=Fal
         evl = RS.Evaluator(counts, bundle(counts.total), M_ALL, selfcheck=True)
         Wnp = np.array(Wf)
 
+        layout = [0]
+
         def call(f, m, strict, **kw):
             if sets is None:
-                return ts.general_stat(Wnp, f, m, strict=strict, **kw)
+                # the weight matrix in rotating memory layouts (Fortran order, strided rows / columns ...)
+                layout[0] += 1
+                return ts.general_stat(AF.reform2d(Wnp, layout[0])[1], f, m, strict=strict, **kw)
             return ts.sample_count_stat(sets, f, m, strict=strict, **kw)
 
         for mode in modes:
@@ -572,7 +577,7 @@ def check_weighted(ts, rts, modes, acc, case, full=True):
                     for sn in snl:
                         try:
                             got = ts.genetic_relatedness_weighted(
-                                Wnp, indexes=idx, windows=w, mode=mode, span_normalise=sn,
+                                AF.reform2d(Wnp, int(pol) + 2 * int(sn) + len(mode))[1], indexes=idx, windows=w, mode=mode, span_normalise=sn,
                                 polarised=pol, centre=centre)
                         except Exception as e:  # noqa
                             acc.fail(f"named:genetic_relatedness_weighted:{mode}:exception",
@@ -652,13 +657,19 @@ def check_trait(ts, rts, modes, acc, case, full=True):
         z2 = [[Fr(1) - z for z in zcols[0]], list(zcols[0])]
         jobs.append(("trait_linear_model", RS.sf_trait_linear_model(cols, z2),
                      {"Z": np.array([[1.0 - r[0], r[0]] for r in Zf])}))
+    lay = 0
     for name, f, kw in jobs:
         ev = RS.Evaluator(counts, f, 2)
         for mode in modes:
             for w, snl in wspecs:
                 for sn in snl:
                     try:
-                        got = getattr(ts, name)(Wnp, windows=w, mode=mode, span_normalise=sn, **kw)
+                        lay += 1
+                        kw2 = dict(kw)
+                        if kw2.get("Z") is not None:
+                            kw2["Z"] = AF.reform2d(kw2["Z"], lay + 1)[1]
+                        wa = w if not isinstance(w, list) else AF.reform(np.array(w, dtype=float), lay)[1]
+                        got = getattr(ts, name)(AF.reform2d(Wnp, lay)[1], windows=wa, mode=mode, span_normalise=sn, **kw2)
                     except Exception as e:  # noqa
                         acc.fail(f"named:{name}:{mode}:exception", f"raised {e!r}", case)
                         continue
